@@ -260,22 +260,36 @@ def run(L, rep, tier, seed):
         'tasks never return (long-lived keep-alive connections); the burst starts from the idle state reached by the pool start-up schedule',
         'identical workers: symmetry breaking (worker i+1 leaves its start location only after worker i)',
     ]
-    for (name, n, ndyn, K, me, only) in CONFIGS[tier]:
+    for (name, n, ndyn, K0, me, only) in CONFIGS[tier]:
         t0 = time.time()
-        try:
-            enc0, hooks, st, pins, sched = startup_state(S, n, ndyn, me)
-            enc = bmc.Encoder(enc0.threads, enc0.objects, K, cap=enc0.cap, spurious=True, hooks=hooks, symmetry=enc0.symmetry)
-            enc.initial_override = st
-            enc.tasks = enc0.tasks
-            enc.use_clock = False        # tasks never return: no worker reaches a timed wait inside the bound
-            enc.build()
-        except Unsupported as e:
-            rep.inconc('%s: unsupported construct: %s' % (name, e))
+        res = None
+        # the step bound is derived from the code: if the reachability witnesses are not found within K (a version of the pool
+        # that needs more visible operations per dispatch), the bound is raised (twice at most) before giving up
+        for K in (K0, K0 + 6, K0 + 12):
+            try:
+                enc0, hooks, st, pins, sched = startup_state(S, n, ndyn, me)
+                enc = bmc.Encoder(enc0.threads, enc0.objects, K, cap=enc0.cap, spurious=True, hooks=hooks, symmetry=enc0.symmetry)
+                enc.initial_override = st
+                enc.tasks = enc0.tasks
+                enc.use_clock = False        # tasks never return: no worker reaches a timed wait inside the bound
+                enc.build()
+            except Unsupported as e:
+                rep.inconc('%s: unsupported construct: %s' % (name, e))
+                res = None
+                break
+            rep.functions.update(enc0.encoded)
+            qs = pool_queries(enc, 'kf_enqueue_without_idle_waiter', only)
+            qs = [(a, b, list(c) + pins) for (a, b, c) in qs]
+            wq = [q for q in qs if q[0].startswith('witness/')]
+            if K != K0 + 12 and wq:
+                wres = bmc.solve_many(enc, wq, timeout_ms=300000, seed=seed, jobs=2)
+                if any(v != 'sat' for (_, v, _, _, _) in wres):
+                    rep.notes.append('%s: witness not reachable within K=%d, raising the step bound' % (name, K))
+                    continue
+            res = bmc.solve_many(enc, qs, timeout_ms=300000, seed=seed, jobs=int(os.environ.get('VERIF_JOBS', '14')), extract=lambda e, m: e.replay_info(m))
+            break
+        if res is None:
             continue
-        rep.functions.update(enc0.encoded)
-        qs = pool_queries(enc, 'kf_enqueue_without_idle_waiter', only)
-        qs = [(a, b, list(c) + pins) for (a, b, c) in qs]
-        res = bmc.solve_many(enc, qs, timeout_ms=300000, seed=seed, jobs=int(os.environ.get('VERIF_JOBS', '14')), extract=lambda e, m: e.replay_info(m))
         rep.states += sum(len(t.locs) for t in enc.threads)
         rep.transitions += len(enc.cmds)
         rep.bounds[name] = {'dispatches': n, 'initial_workers_from_MIR': enc0.n_init, 'dynamic_worker_slots': ndyn, 'K_steps_after_startup': K,
